@@ -1,1 +1,346 @@
-From C14 Require Import Generated Model Spec.
+(* C14/Reflect.v — closed-finite-set reflection for the property's own finite configuration space
+   (<= 3 concurrent calls): a set of (client state x monitor state) pairs is computed by vm_compute,
+   checked to contain the initial state, to be closed under EVERY label, and to satisfy the invariant
+   pointwise; `closed_invariant` lifts this to all schedules of any length. *)
+From Coq Require Import ZArith NArith List Bool PeanoNat Lia FMapPositive.
+From C14 Require Import Model Spec.
+Import ListNotations.
+
+(* ------------------------------------------------------------------ generic part *)
+Section Closed.
+  Context {St L : Type}.
+  Variable stepf : St -> L -> option St.
+  Variable enc : St -> positive.
+  Variable eqb : St -> St -> bool.
+  Hypothesis eqb_sound : forall a b, eqb a b = true -> a = b.
+  Variable labels : list L.
+  Variable P : St -> bool.
+
+  Definition memS (s : St) (M : PositiveMap.t St) : bool :=
+    match PositiveMap.find (enc s) M with Some t => eqb t s | None => false end.
+
+  Definition closedS (M : PositiveMap.t St) : bool :=
+    forallb (fun cs => P (snd cs) &&
+                       forallb (fun l => match stepf (snd cs) l with Some s' => memS s' M | None => true end) labels)
+            (PositiveMap.elements M).
+
+  Lemma closed_at : forall M s, closedS M = true -> memS s M = true ->
+    P s = true /\ forall l s', In l labels -> stepf s l = Some s' -> memS s' M = true.
+  Proof.
+    intros M s Hc Hm. unfold memS in Hm.
+    destruct (PositiveMap.find (enc s) M) as [t|] eqn:Hf; [|discriminate].
+    apply eqb_sound in Hm. subst t.
+    apply PositiveMap.elements_correct in Hf.
+    unfold closedS in Hc. rewrite forallb_forall in Hc. specialize (Hc _ Hf). cbn [snd] in Hc.
+    apply andb_true_iff in Hc. destruct Hc as [HP Hl]. split; [exact HP|].
+    intros l s' Hin Hs. rewrite forallb_forall in Hl. specialize (Hl _ Hin). rewrite Hs in Hl. exact Hl.
+  Qed.
+
+  Fixpoint execf (s : St) (tr : list L) : option St :=
+    match tr with
+    | [] => Some s
+    | a :: r => match stepf s a with Some s1 => execf s1 r | None => None end
+    end.
+
+  (* labels outside the list are never enabled in states satisfying P *)
+  Hypothesis labels_complete : forall s l s', P s = true -> stepf s l = Some s' -> In l labels.
+
+  Lemma closed_invariant : forall M s0, closedS M = true -> memS s0 M = true ->
+    forall tr s, execf s0 tr = Some s -> memS s M = true /\ P s = true.
+  Proof.
+    intros M s0 Hc Hm tr. revert s0 Hm. induction tr as [|a r IH]; intros s0 Hm s He; cbn [execf] in He.
+    - inversion He; subst. split; [exact Hm|]. exact (proj1 (closed_at M s Hc Hm)).
+    - destruct (stepf s0 a) as [s1|] eqn:Hs; [|discriminate].
+      destruct (closed_at M s0 Hc Hm) as [HP Hstep].
+      apply (IH s1); [|exact He].
+      apply (Hstep a s1); [|exact Hs]. exact (labels_complete s0 a s1 HP Hs).
+  Qed.
+
+  (* worklist exploration; None = out of fuel *)
+  Fixpoint explore (fuel : nat) (todo : list St) (seen : PositiveMap.t St) : option (PositiveMap.t St) :=
+    match todo with
+    | [] => Some seen
+    | s :: rest =>
+        match fuel with
+        | O => None
+        | S f =>
+            let '(todo', seen') :=
+              fold_left (fun acc l =>
+                           match stepf s l with
+                           | Some s' => if memS s' (snd acc) then acc
+                                        else (s' :: fst acc, PositiveMap.add (enc s') s' (snd acc))
+                           | None => acc
+                           end) labels (rest, seen) in
+            explore f todo' seen'
+        end
+    end.
+
+  Definition check_from (fuel : nat) (s0 : St) : bool :=
+    match explore fuel [s0] (PositiveMap.add (enc s0) s0 (PositiveMap.empty St)) with
+    | Some M => memS s0 M && closedS M
+    | None => false
+    end.
+
+  Definition count_from (fuel : nat) (s0 : St) : nat :=
+    match explore fuel [s0] (PositiveMap.add (enc s0) s0 (PositiveMap.empty St)) with
+    | Some M => PositiveMap.cardinal M
+    | None => 0
+    end.
+
+  Lemma check_from_invariant : forall fuel s0, check_from fuel s0 = true ->
+    forall tr s, execf s0 tr = Some s -> P s = true.
+  Proof.
+    intros fuel s0 H tr s He. unfold check_from in H.
+    destruct (explore fuel [s0] _) as [M|]; [|discriminate].
+    apply andb_true_iff in H. destruct H as [Hm Hc].
+    exact (proj2 (closed_invariant M s0 Hc Hm tr s He)).
+  Qed.
+End Closed.
+
+(* ------------------------------------------------------------------ the product client x monitor *)
+Definition pstate := (state * mon)%type.
+
+Definition pstep (fl : flags) (p : pstate) (a : label) : option pstate :=
+  match step fl (fst p) a with
+  | Some (s', ev) => Some (s', mon_run (snd p) ev)
+  | None => None
+  end.
+
+Definition pinv (fl : flags) (p : pstate) : bool :=
+  Nat.leb (length (calls (fst p))) 3 &&
+  negb (m_bad (snd p)) &&
+  (if quiescent fl (fst p) then mon_accept (snd p) else true).
+
+Definition labels3 : list label :=
+  flat_map (fun k => [AInvoke k; ARegister k; ASchedule k; ASend k; AComplete k; AResp k true; AResp k false]) [0; 1; 2]
+  ++ [APush true; APush false; ACloseReq; ACut; AReset; AClean].
+
+(* ---- structural equality *)
+Definition exn_code (e : exn) : N :=
+  match e with XNotEst => 0 | XAttr => 1 | XConnFail => 2 | XCloseConn => 3 | XOther => 4 end.
+Definition exn_eqb (a b : exn) : bool := N.eqb (exn_code a) (exn_code b).
+Definition fut_eqb (a b : fut) : bool :=
+  match a, b with
+  | FUnres, FUnres => true
+  | FVal x, FVal y => body_eqb x y
+  | FExc x, FExc y => exn_eqb x y
+  | _, _ => false
+  end.
+Definition result_eqb (a b : result) : bool :=
+  match a, b with
+  | RVal x, RVal y => body_eqb x y
+  | RExc x, RExc y => exn_eqb x y
+  | RNoop, RNoop => true
+  | _, _ => false
+  end.
+Definition pc_eqb (a b : pc) : bool :=
+  match a, b with
+  | PIdle, PIdle | PChecked, PChecked | PRegd, PRegd | PSched, PSched | PAwait, PAwait => true
+  | PDone x, PDone y => result_eqb x y
+  | _, _ => false
+  end.
+Definition call_eqb (a b : call) : bool :=
+  Bool.eqb (c_close a) (c_close b) && pc_eqb (c_pc a) (c_pc b) && fut_eqb (c_fut a) (c_fut b) && Bool.eqb (c_sent a) (c_sent b).
+Definition lstate_eqb (a b : lstate) : bool :=
+  match a, b with
+  | LRun, LRun | LExit, LExit | LCrash, LCrash => true
+  | LClean e i d, LClean e' i' d' => exn_eqb e e' && Nat.eqb i i' && Bool.eqb d d'
+  | _, _ => false
+  end.
+Fixpoint list_eqb {A} (eq : A -> A -> bool) (l1 l2 : list A) : bool :=
+  match l1, l2 with
+  | [], [] => true
+  | x :: r, y :: r' => eq x y && list_eqb eq r r'
+  | _, _ => false
+  end.
+Definition state_eqb (a b : state) : bool :=
+  list_eqb call_eqb (calls a) (calls b) && list_eqb Nat.eqb (pending a) (pending b) && lstate_eqb (lst a) (lst b) &&
+  Bool.eqb (writer a) (writer b) && Bool.eqb (copen a) (copen b) && Bool.eqb (running a) (running b).
+Definition mstat_eqb (a b : mstat) : bool :=
+  match a, b with
+  | MIdle, MIdle | MCalled, MCalled | MDone, MDone => true
+  | MAnswered x, MAnswered y => body_eqb x y
+  | _, _ => false
+  end.
+Definition mon_eqb (a b : mon) : bool :=
+  list_eqb mstat_eqb (m_st a) (m_st b) && Bool.eqb (m_lost a) (m_lost b) && Bool.eqb (m_bad a) (m_bad b).
+Definition pstate_eqb (a b : pstate) : bool := state_eqb (fst a) (fst b) && mon_eqb (snd a) (snd b).
+
+(* ---- hash into positive (soundness does not depend on it; a collision only makes the check fail) *)
+Definition b2n (b : bool) : N := if b then 1%N else 0%N.
+Definition body_code (b : body) : N := match b with BClose => 0 | BVal z => 1 + Z.to_N z end.
+Definition fut_code (f : fut) : N :=
+  match f with FUnres => 0 | FExc e => 1 + exn_code e | FVal b => 6 + body_code b end.
+Definition result_code (r : result) : N :=
+  match r with RNoop => 0 | RExc e => 1 + exn_code e | RVal b => 6 + body_code b end.
+Definition pc_code (p : pc) : N :=
+  match p with PIdle => 0 | PChecked => 1 | PRegd => 2 | PSched => 3 | PAwait => 4 | PDone r => 5 + result_code r end.
+Definition call_code (c : call) : N :=
+  ((pc_code (c_pc c) * 16 + fut_code (c_fut c)) * 2 + b2n (c_close c)) * 2 + b2n (c_sent c).
+Definition lstate_code (l : lstate) : N :=
+  match l with LRun => 0 | LExit => 1 | LCrash => 2 | LClean e i d => 3 + ((exn_code e * 8 + N.of_nat i) * 2 + b2n d) end.
+Definition mstat_code (m : mstat) : N :=
+  match m with MIdle => 0 | MCalled => 1 | MDone => 2 | MAnswered b => 3 + body_code b end.
+Definition enc_pstate (p : pstate) : positive :=
+  let s := fst p in let m := snd p in
+  let a := fold_left (fun acc c => acc * 2048 + call_code c)%N (calls s) (N.of_nat (length (calls s))) in
+  let a := fold_left (fun acc k => acc * 8 + (1 + N.of_nat k))%N (pending s) (a * 8)%N in
+  let a := (a * 128 + lstate_code (lst s))%N in
+  let a := (((a * 2 + b2n (writer s)) * 2 + b2n (copen s)) * 2 + b2n (running s))%N in
+  let a := fold_left (fun acc x => acc * 16 + mstat_code x)%N (m_st m) a in
+  N.succ_pos ((a * 2 + b2n (m_lost m)) * 2 + b2n (m_bad m)).
+
+Definition fl_fixed : flags := mkFlags true true.
+
+Definition p_init (nn nc : nat) : pstate := (init_cfg nn nc, mon_init (nn + nc)).
+
+Definition check_cfg (fuel : nat) (nn nc : nat) : bool :=
+  check_from (pstep fl_fixed) enc_pstate pstate_eqb labels3 (pinv fl_fixed) fuel (p_init nn nc).
+Definition count_cfg (fuel : nat) (nn nc : nat) : nat :=
+  count_from (pstep fl_fixed) enc_pstate pstate_eqb labels3 fuel (p_init nn nc).
+
+(* ------------------------------------------------------------------ soundness of the equality test *)
+Lemma body_eqb_sound : forall a b, body_eqb a b = true -> a = b.
+Proof. intros [x|] [y|] H; cbn in H; try discriminate; [apply Z.eqb_eq in H; subst|]; reflexivity. Qed.
+Lemma exn_eqb_sound : forall a b, exn_eqb a b = true -> a = b.
+Proof. intros [] [] H; cbn in H; try discriminate; reflexivity. Qed.
+Lemma fut_eqb_sound : forall a b, fut_eqb a b = true -> a = b.
+Proof.
+  intros [|x|x] [|y|y] H; cbn in H; try discriminate; try reflexivity.
+  - apply body_eqb_sound in H; subst; reflexivity.
+  - apply exn_eqb_sound in H; subst; reflexivity.
+Qed.
+Lemma result_eqb_sound : forall a b, result_eqb a b = true -> a = b.
+Proof.
+  intros [x|x|] [y|y|] H; cbn in H; try discriminate; try reflexivity.
+  - apply body_eqb_sound in H; subst; reflexivity.
+  - apply exn_eqb_sound in H; subst; reflexivity.
+Qed.
+Lemma pc_eqb_sound : forall a b, pc_eqb a b = true -> a = b.
+Proof.
+  intros [| | | | |x] [| | | | |y] H; cbn in H; try discriminate; try reflexivity.
+  apply result_eqb_sound in H; subst; reflexivity.
+Qed.
+Lemma bool_eqb_sound : forall a b, Bool.eqb a b = true -> a = b.
+Proof. intros a b H. apply Bool.eqb_prop. exact H. Qed.
+Lemma call_eqb_sound : forall a b, call_eqb a b = true -> a = b.
+Proof.
+  intros [a1 a2 a3 a4] [b1 b2 b3 b4] H. unfold call_eqb in H. cbn in H.
+  repeat (apply andb_true_iff in H; destruct H as [H ?]).
+  apply bool_eqb_sound in H. apply pc_eqb_sound in H2. apply fut_eqb_sound in H1. apply bool_eqb_sound in H0.
+  subst. reflexivity.
+Qed.
+Lemma list_eqb_sound : forall A (eq : A -> A -> bool), (forall a b, eq a b = true -> a = b) ->
+  forall l1 l2, list_eqb eq l1 l2 = true -> l1 = l2.
+Proof.
+  intros A eq Heq. induction l1 as [|x r IH]; intros [|y r'] H; cbn in H; try discriminate; [reflexivity|].
+  apply andb_true_iff in H. destruct H as [H1 H2]. apply Heq in H1. apply IH in H2. subst. reflexivity.
+Qed.
+Lemma lstate_eqb_sound : forall a b, lstate_eqb a b = true -> a = b.
+Proof.
+  intros [|e i d| |] [|e' i' d'| |] H; cbn in H; try discriminate; try reflexivity.
+  repeat (apply andb_true_iff in H; destruct H as [H ?]).
+  apply exn_eqb_sound in H. apply Nat.eqb_eq in H1. apply bool_eqb_sound in H0. subst. reflexivity.
+Qed.
+Lemma nat_eqb_sound : forall a b, Nat.eqb a b = true -> a = b.
+Proof. intros a b H. apply Nat.eqb_eq. exact H. Qed.
+Lemma state_eqb_sound : forall a b, state_eqb a b = true -> a = b.
+Proof.
+  intros [a1 a2 a3 a4 a5 a6] [b1 b2 b3 b4 b5 b6] H. unfold state_eqb in H. cbn in H.
+  repeat (apply andb_true_iff in H; destruct H as [H ?]).
+  apply (list_eqb_sound _ _ call_eqb_sound) in H. apply (list_eqb_sound _ _ nat_eqb_sound) in H4.
+  apply lstate_eqb_sound in H3. apply bool_eqb_sound in H2. apply bool_eqb_sound in H1. apply bool_eqb_sound in H0.
+  subst. reflexivity.
+Qed.
+Lemma mstat_eqb_sound : forall a b, mstat_eqb a b = true -> a = b.
+Proof.
+  intros [| |x|] [| |y|] H; cbn in H; try discriminate; try reflexivity.
+  apply body_eqb_sound in H; subst; reflexivity.
+Qed.
+Lemma mon_eqb_sound : forall a b, mon_eqb a b = true -> a = b.
+Proof.
+  intros [a1 a2 a3] [b1 b2 b3] H. unfold mon_eqb in H. cbn in H.
+  repeat (apply andb_true_iff in H; destruct H as [H ?]).
+  apply (list_eqb_sound _ _ mstat_eqb_sound) in H. apply bool_eqb_sound in H1. apply bool_eqb_sound in H0.
+  subst. reflexivity.
+Qed.
+Lemma pstate_eqb_sound : forall a b, pstate_eqb a b = true -> a = b.
+Proof.
+  intros [a1 a2] [b1 b2] H. unfold pstate_eqb in H. cbn in H.
+  apply andb_true_iff in H. destruct H as [H1 H2].
+  apply state_eqb_sound in H1. apply mon_eqb_sound in H2. subst. reflexivity.
+Qed.
+
+(* ------------------------------------------------------------------ only the listed labels can be enabled *)
+Lemma lt3_cases : forall k, k < 3 -> k = 0 \/ k = 1 \/ k = 2.
+Proof. intros k H. lia. Qed.
+
+Lemma nth_error_lt3 : forall (s : state) k c, length (calls s) <= 3 -> nth_error (calls s) k = Some c -> k = 0 \/ k = 1 \/ k = 2.
+Proof.
+  intros s k c Hl Hn. apply lt3_cases.
+  assert (k < length (calls s)) by (apply nth_error_Some; rewrite Hn; discriminate). lia.
+Qed.
+
+Lemma labels3_complete : forall fl p l p', pinv fl p = true -> pstep fl p l = Some p' -> In l labels3.
+Proof.
+  intros fl [s m] l p' Hp Hs. unfold pinv in Hp. cbn [fst snd] in Hp.
+  apply andb_true_iff in Hp. destruct Hp as [Hp _]. apply andb_true_iff in Hp. destruct Hp as [Hlen _].
+  apply Nat.leb_le in Hlen.
+  unfold pstep in Hs. cbn [fst snd] in Hs.
+  destruct (step fl s l) as [[s' ev]|] eqn:Hst; [|discriminate]. clear Hs.
+  destruct l as [k|k|k|k|k|k ok|ok| | | |]; cbn [step] in Hst;
+    try (destruct (nth_error (calls s) k) as [c|] eqn:Hn; [|discriminate];
+         destruct (nth_error_lt3 s k c Hlen Hn) as [->|[->| ->]]);
+    try (destruct ok); cbn; tauto.
+Qed.
+
+(* ------------------------------------------------------------------ exec and the product run agree *)
+Lemma mon_run_app : forall m h1 h2, mon_run m (h1 ++ h2) = mon_run (mon_run m h1) h2.
+Proof. intros. unfold mon_run. apply fold_left_app. Qed.
+
+Lemma exec_pexec : forall fl tr s m s' h, exec fl s tr = Some (s', h) ->
+  execf (pstep fl) (s, m) tr = Some (s', mon_run m h).
+Proof.
+  intros fl tr. induction tr as [|a r IH]; intros s m s' h H; cbn [exec] in H; cbn [execf].
+  - inversion H; subst. reflexivity.
+  - unfold pstep at 1. cbn [fst snd].
+    destruct (step fl s a) as [[s1 e1]|]; [|discriminate].
+    destruct (exec fl s1 r) as [[s2 e2]|] eqn:He; [|discriminate].
+    inversion H; subst. rewrite mon_run_app. apply IH. exact He.
+Qed.
+
+(* ------------------------------------------------------------------ the finite configuration space *)
+Definition cfgs : list (nat * nat) :=
+  [(0,0); (1,0); (0,1); (2,0); (1,1); (0,2); (3,0); (2,1); (1,2); (0,3)].
+
+Lemma cfgs_complete : forall nn nc, nn + nc <= 3 -> In (nn, nc) cfgs.
+Proof.
+  intros nn nc H. unfold cfgs.
+  destruct nn as [|[|[|[|nn]]]]; destruct nc as [|[|[|[|nc]]]]; cbn; try lia; tauto.
+Qed.
+
+Definition fuel0 : nat := N.to_nat 400000.
+
+Lemma cfgs_checked : forallb (fun c => check_cfg fuel0 (fst c) (snd c)) cfgs = true.
+Proof. vm_compute. reflexivity. Qed.
+
+(* the sizes of the closed sets, for the record *)
+Definition cfg_sizes : list nat := map (fun c => count_cfg fuel0 (fst c) (snd c)) cfgs.
+
+Theorem all_runs_pass : forall nn nc, nn + nc <= 3 ->
+  forall tr s h, exec fl_fixed (init_cfg nn nc) tr = Some (s, h) ->
+    check_prefix (nn + nc) h = true /\
+    (quiescent fl_fixed s = true -> check_history (nn + nc) h = true).
+Proof.
+  intros nn nc Hn tr s h He.
+  pose proof cfgs_checked as Hc. rewrite forallb_forall in Hc.
+  specialize (Hc _ (cfgs_complete nn nc Hn)). cbn [fst snd] in Hc. unfold check_cfg in Hc.
+  pose proof (check_from_invariant (pstep fl_fixed) enc_pstate pstate_eqb pstate_eqb_sound labels3 (pinv fl_fixed)
+                (labels3_complete fl_fixed) fuel0 (p_init nn nc) Hc tr (s, mon_run (mon_init (nn + nc)) h)) as Hinv.
+  unfold p_init in Hinv. specialize (Hinv (exec_pexec _ _ _ _ _ _ He)).
+  unfold pinv in Hinv. cbn [fst snd] in Hinv.
+  apply andb_true_iff in Hinv. destruct Hinv as [Hinv Hq]. apply andb_true_iff in Hinv. destruct Hinv as [_ Hb].
+  split.
+  - unfold check_prefix. exact Hb.
+  - intros Hqs. rewrite Hqs in Hq. unfold check_history. exact Hq.
+Qed.
